@@ -99,6 +99,10 @@ def sa_version_count(d):
     a = oracle.normalize_args(kw)
     version, level = a['version_name'], a['error_name'] or 'L'
     n = det['n']
+    # the number of symbols must be exactly what the *pinned* estimator yields (total bit length incl. one mode / count
+    # indicator, 20 header bits per symbol, numeric remainder 0 charged with 7 bits): a different count is another defect
+    if n != _pinned_symbol_count(version, level, mode, len(text)):
+        return False
     k, m = divmod(len(text), n)
     lens = [(i + 1) * k + min(i + 1, m) - (i * k + min(i, m)) for i in range(n)]
     cap = oracle.capacity(version, level)
@@ -159,3 +163,26 @@ def verbose_8_size_9(d):
                 return True
         return False
     return False
+
+
+def _pinned_symbol_count(version, level, mode, char_count):
+    """Emulation of the pinned number_of_symbols_by_version (known finding sa-version-count-underestimate); used only
+    to keep the classifier narrow, never for a verdict."""
+    import math
+    from refmodel import qr
+    from vmon import oracle
+    cap = oracle.capacity(version, level)
+    if mode in ('kanji', 'hanzi'):
+        bits = char_count * 13
+    elif mode == 'numeric':
+        num, rem = divmod(char_count, 3)
+        bits = num * 10 + (4 if rem == 1 else 7)
+    elif mode == 'alphanumeric':
+        num, rem = divmod(char_count, 2)
+        bits = num * 11 + (6 if rem else 0)
+    else:
+        bits = char_count * 8
+    total = 4 + qr.cci_len(version, mode) + 20 + bits
+    cnt = int(math.ceil(total / cap))
+    total += 20 * (cnt - 1)
+    return int(math.ceil(total / cap))
